@@ -521,7 +521,16 @@ func (g *frGen) emitParseWith(p *wire.FrameParser, c frCfg, lvl protocol.Encrypt
 // parse -> Append -> parse is a fixpoint; the re-encoding is never longer than what was consumed
 func (g *frGen) checkReencode(c frCfg, lvl protocol.EncryptionLevel, v protocol.Version, in []byte, f wire.Frame, consumed int) {
 	if sf, ok := f.(*wire.StreamFrame); ok && len(sf.Data) == 0 && !sf.Fin {
-		return // accepted when parsing, never written
+		// accepted when parsing, never written: Append refuses it by design (observation, see
+		// C08_reencode_empty_stream_refuted) — counted and shown, not skipped silently
+		if _, err := sf.Append(nil, v); err == nil {
+			g.monfail("frames/reencode", "Append now writes an empty STREAM frame without FIN (model says it refuses)", fmt.Sprintf("input=%x", in))
+		}
+		if g.dist["info:empty-stream-without-fin-not-reencodable"] == 0 {
+			fmt.Fprintf(g.w, "INFO\tOBSERVATION\tframes/empty-stream-not-reencodable\tparsed but Append refuses it\tinput=%x\n", in)
+		}
+		g.dist["info:empty-stream-without-fin-not-reencodable"]++
+		return
 	}
 	detail := fmt.Sprintf("cfg=%s lvl=%d input=%x", frCfgStr(c), lvl, in)
 	defer func() {
